@@ -34,6 +34,7 @@ MonInit ==
   [ sent |-> <<>>, got |-> <<>>, cst |-> <<>>, nread |-> <<>>,
     ans |-> <<>>, redir |-> <<>>, nlog |-> <<>>, pend |-> <<>>, unread |-> <<>>,
     lostp |-> <<>>,      \* conn -> fragments that died with it, not yet noticed by the proxy
+    late |-> {},         \* conns that received bytes after the proxy's read in the iteration being observed
     dirty |-> {},        \* conns holding bytes the proxy has not read yet (it reads data before EOF)
     recvd |-> {}, lost |-> {}, noticed |-> {}, expired |-> {}, tmo |-> {}, rd |-> {},
     connLost |-> FALSE, viol |-> {}, dead |-> FALSE ]
@@ -215,6 +216,7 @@ MonApply(m, e) ==
                                                           (CHOOSE t \in SeqRange(e.toks) : t.j = j).v]]),
                             !.unread = Put(@, e.conn, At(m.unread, e.conn, {}) \cup {f}),
                             !.dirty = @ \cup {e.conn}]
+    [] e.ev = "answerauto" /\ e.kind = "late" -> [m EXCEPT !.late = @ \cup {e.conn}]
     [] e.ev \in {"answerhead", "answerauto"} -> [m EXCEPT !.dirty = @ \cup {e.conn}]
     [] e.ev = "bclose" ->
          \* the node dropped the connection: what it had not answered dies with it
@@ -256,7 +258,7 @@ MonApply(m, e) ==
                              !.tmo = IF e.seen # <<>> THEN @ \cup m.expired ELSE @,
                              !.unread = [cn \in DOMAIN m.unread |-> IF cn \in conns THEN {} ELSE m.unread[cn]],
                              !.lostp = [cn \in DOMAIN m.lostp |-> IF cn \in eof THEN {} ELSE m.lostp[cn]],
-                             !.dirty = @ \ conns,
+                             !.dirty = (@ \ conns) \cup m.late, !.late = {},
                              !.nread = [c \in DOMAIN m.nread \cup clis |->
                                           IF c \in clis THEN Len(Sent(m, c)) ELSE m.nread[c]]]
          IN AddViol(m1, WaitViol(m1, FALSE))
